@@ -159,3 +159,11 @@ def _mem_fused(case, v):
     is max(own, peak of predecessors) although predecessor outputs stay alive while the operation itself runs."""
     return (v.get("cls") == "task_exceeds_projected_mem" and bool(v.get("fused"))
             and (case.get("opt") or {}).get("kind") != "off")
+
+
+@matcher("mem_roll_unaligned_concat")
+def _mem_roll_unfused(case, v):
+    """roll(): the concat of the two shifted slices assembles every output block from up to two input blocks
+    per rolled axis, but is projected like an aligned concat."""
+    return (v.get("cls") == "task_exceeds_projected_mem" and v.get("func") == "roll" and not v.get("fused")
+            and any(st["op"] == "roll" for st in case["prog"]["steps"]))
